@@ -69,6 +69,8 @@ def setup():
     import xarray as xr
     _T.update(gmod=gmod, Collocator=Collocator, xr=xr,
               R=float(cst.earth_radius) / 1000.0)
+    from sim.seams import typhon_state
+    _T["state"] = typhon_state()
 
 
 def gen_dataset(tape, did, force_big=False):
@@ -220,6 +222,7 @@ def _viol(sig, msg, extra=None):
 
 
 def run_one(tape, only=None):
+    _T["state"].restore()      # each run models a fresh interpreter
     res = new_result()
     w = gen_workload(tape)
     R = _T["R"]
